@@ -259,7 +259,8 @@ GraphStep ==
                    ELSE IF si # 0 /\ ~FallThroughO(pEd, ed, pLay[si][1], a0) THEN "FallThrough"
                    ELSE ""
          asis   == obs = ProjM(ma2)
-         sw     == {F \in Swallows : ProjM(StepM(ma, nodesA, e, AsIs \ {F})) # ProjM(ma2)}
+         \* only the Swallow deviations make the mapped layout differ from the intended design's
+         sw     == IF Layout(ma2, ma2.sup) # Layout(mi2, mi2.sup) THEN AsIs \cap Swallows ELSE {}
          fired  == {F \in Fired(ma, nodesA, e) \cup gone : clause \in Explains(F)}
      IN
      /\ mi' = mi2 /\ ma' = ma2
